@@ -54,6 +54,32 @@ def r1(ctx):
             sbb, m, els, adt, pl = ves[0]
             se = m.get("Some")
             ok_t = bool(se) and not any(bb in b.reachable(e[1]) for e in tgt_f) and bb not in b.reachable(se[1], removed_edges=tgt_t)
+        if not ok_t and not tgt_f:
+            # accepted alternative: the filter is an Option combinator on target_addr - `is_some_and(|t| !matches(t, src))` (true = reject)
+            # or `is_none_or(|t| matches(t, src))` (false = reject)
+            for sbb, te, fe, o in guards_on(b, lambda o: o["k"] == "call" and re.search(r"^std::option::Option::(is_some_and|is_none_or)$", o["t"]["f"])):
+                tt = o["t"]
+                if "field:turmoil::host::UdpBind::target_addr" not in Slicer(ctx.w).atoms(b, tt["args"][0]):
+                    continue
+                neg = None
+                for cid in closure_args(b, tt):
+                    cb = ctx.w.bodies.get(cid)
+                    if not cb:
+                        continue
+                    ms = [t2 for bb2, t2 in cb.calls() if callee_matches(t2, "turmoil::host::matches")]
+                    if len(ms) != 1:
+                        continue
+                    a1 = Slicer(ctx.w).atoms(cb, ms[0]["args"][1])
+                    a0 = Slicer(ctx.w).atoms(cb, ms[0]["args"][0])
+                    if not (any(":src@" in a for a in a1) and any(a.startswith("arg:2:") for a in a0)):
+                        continue
+                    ro = origin(cb, {"c": {"l": 0}})
+                    neg = ro["k"] == "not" if ro["k"] in ("not", "call") else None
+                if neg is None:
+                    continue
+                reject = te if (tt["f"].endswith("is_some_and") and neg) else fe if (tt["f"].endswith("is_none_or") and not neg) else None
+                if reject:
+                    ok_t = not any(bb in b.reachable(e[1]) for e in reject)
         ctx.inst(R, "receive:connected-peer-filter", ok_t, t["s"], "a connected socket only receives from its peer" if ok_t else
                  "a datagram from a non-peer can be queued on a connected socket (the matches(target, src) filter is missing or bypassed)")
     if not ts:
@@ -82,7 +108,7 @@ def r2(ctx):
                 ctx.inst(R, f"{b.id}:datagram#{nth(cnt, b.id)}", ok, s["s"], "payload = copy of the caller's buffer" if ok else "Datagram payload is not Bytes::copy_from_slice(buf)")
     tr = ctx.body(R, "turmoil::net::udp::Rx::try_recv_from")
     if tr:
-        mins = [t for bb, t in tr.calls(re.compile(r"^std::cmp::min$|Ord>::min$"))]
+        mins = [t for bb, t in tr.calls(re.compile(r"^std::cmp::min$|Ord>::min$|Ord::min$|^(usize|u64|u32)::min$"))]
         ok = False
         for t in mins:
             a0 = Slicer(ctx.w).atoms(tr, t["args"][0])
@@ -272,12 +298,31 @@ def r8(ctx):
     LA = "field:turmoil::net::udp::UdpSocket::local_addr"
     s = ctx.body(R, "turmoil::net::udp::UdpSocket::send")
     n = 0
+
+    def roles(fid):
+        """(index of the parameter that becomes Envelope::src, index of the one that becomes Envelope::dst) of a sending function,
+        read off the Envelope it builds - whatever the order of its parameters"""
+        cb = ctx.w.bodies.get(fid)
+        if not cb:
+            return None
+        sfx = "@" + cb.id
+        for fb2 in ctx.w.family(cb.id):
+            for bb2, i2, st2 in fb2.all_stmts():
+                r2 = st2["r"]
+                if i2 != "term" and r2["k"] == "agg" and r2.get("adt") == "turmoil::envelope::Envelope":
+                    m2 = dict(zip(r2["fields"], r2["ops"]))
+                    idx = lambda at: sorted({int(a.split(":")[1]) for a in at if a.startswith("arg:") and a.endswith(sfx)})
+                    ks, kd = idx(Slicer(ctx.w).atoms(fb2, m2["src"])), idx(Slicer(ctx.w).atoms(fb2, m2["dst"]))
+                    if len(ks) == 1 and len(kd) == 1 and ks != kd:
+                        return ks[0] - 1, kd[0] - 1
+        return None
     if s:
         for fb in ctx.w.family(s.id):
             for bb, t in fb.calls(re.compile(r"World::send_message$|udp::send_loopback$")):
                 off = 1 if t["f"].endswith("send_message") else 0
-                a0 = Slicer(ctx.w).atoms(fb, t["args"][off])
-                a1 = Slicer(ctx.w).atoms(fb, t["args"][off + 1])
+                rl = roles(t["f"]) or (off, off + 1)
+                a0 = Slicer(ctx.w).atoms(fb, t["args"][rl[0]])
+                a1 = Slicer(ctx.w).atoms(fb, t["args"][rl[1]])
                 n += 1
                 ok = LA in a0 and LA not in a1
                 ctx.inst(R, f"send:{t['f'].rsplit('::', 1)[1]}#{n}", ok, t["s"], "(source = own address, destination = target)" if ok else
@@ -293,9 +338,12 @@ def r8(ctx):
                     a_s = Slicer(ctx.w).atoms(fb, m["src"])
                     a_d = Slicer(ctx.w).atoms(fb, m["dst"])
                     sfx = "@" + sl.id
+                    # the two address parameters in declaration order (whatever else is declared around them)
+                    addr = [k + 1 for k, ti in enumerate(ctx.w.fns[sl.id]["inputs"]) if ctx.w.tys[sl.crate][ti]["s"].endswith("SocketAddr")] if sl.id in ctx.w.fns else [1, 2]
+                    k1, k2 = (addr + [1, 2])[:2] if len(addr) >= 2 else (1, 2)
                     has = lambda at, k: any(a.startswith(f"arg:{k}:") and a.endswith(sfx) for a in at)
-                    ok = has(a_s, 1) and not has(a_s, 2) and has(a_d, 2) and not has(a_d, 1)
-        ctx.inst(R, "send_loopback:envelope-order", ok, sl.span, "Envelope { src: first, dst: second }" if ok else "send_loopback builds its Envelope with src / dst swapped")
+                    ok = has(a_s, k1) and not has(a_s, k2) and has(a_d, k2) and not has(a_d, k1)
+        ctx.inst(R, "send_loopback:envelope-order", ok, sl.span, "Envelope { src: first address, dst: second address }" if ok else "send_loopback builds its Envelope with src / dst swapped")
     ctx.floor(R, 6)
 
 
